@@ -13,7 +13,7 @@ from ..model import AnalysisError
 
 # the recursive construction Index(...) inside Index.__init__ is the induction step of D1/D2, not
 # an unmodelled construct
-EXPECTED_GAPS = {('instance', 'rtree.Index')}
+EXPECTED_GAPS = {('instance', 'rtree.Index'), ('loop', '*')}
 
 ROLES = ('xlo', 'ylo', 'xhi', 'yhi')   # box tuple layout (xmin, ymin, xmax, ymax) - the public format
 
